@@ -97,6 +97,9 @@ func init() {
 				for i := 0; i < k; i++ {
 					fileNo := perm[i] + 1 // declared position i lives in file number perm[i]+1
 					tok := fmt.Sprintf("tok%dx", it*10+i)
+					if k > 1 && rng.Chance(1, 8) {
+						tok = "" // a declared worksheet without any cell: it still is a sheet, and a page
+					}
 					name := fmt.Sprintf("Sheet %c", 'A'+i)
 					rid := fmt.Sprintf("rId%d", 10+rng.Intn(1)+i*3)
 					var target, member string
@@ -123,7 +126,11 @@ func init() {
 					missing := k > 1 && rng.Chance(1, 12)
 					if !missing {
 						members = append(members, [2]string{member, tok})
-						zms = append(zms, zipMember{Name: member, Data: sheetXMLWithToken(tok)})
+						if tok == "" {
+							zms = append(zms, zipMember{Name: member, Data: c17SheetXML(c17Sheet{})})
+						} else {
+							zms = append(zms, zipMember{Name: member, Data: sheetXMLWithToken(tok)})
+						}
 						wantNames = append(wantNames, name)
 						wantToks = append(wantToks, tok)
 					}
@@ -186,13 +193,23 @@ func init() {
 						if okP {
 							for i, pg := range doc.Pages {
 								toks := c18TokRe.FindAllString(pg.ExtractText(), -1)
-								if len(toks) != 1 || toks[0] != wantToks[i] {
+								if wantToks[i] == "" {
+									if len(toks) != 0 {
+										okP = false
+									}
+								} else if len(toks) != 1 || toks[0] != wantToks[i] {
 									okP = false
 								}
 							}
 						}
 						r.Check(okP, "xlsx-pages", "page count / per-page content does not follow the declared sheets", cv)
-						c18EntryPoints(r, "xlsx", p, wantToks, cv)
+						var filled []string
+						for _, t := range wantToks {
+							if t != "" {
+								filled = append(filled, t)
+							}
+						}
+						c18EntryPoints(r, "xlsx", p, filled, cv)
 					}
 					os.Remove(p)
 				}
